@@ -48,7 +48,11 @@ Ops(l) ==
 KeyFamilies == {<<0, 1, 0, 1>>, <<2, 0, 1, 0>>, <<1, 1, 0, 2>>}
 SmallLoaders == {Loader("batch", Table(ColsB, <<RowB(1, q[1], 0), RowB(2, q[2], 0), RowB(3, q[3], 1), RowB(4, q[4], 1)>>), <<0, 1>>, -1, 1) : q \in KeyFamilies}
            \cup {Loader("batch", Table(ColsB, <<RowB(1, q[1], 0), RowB(3, q[3], 1), RowB(4, q[4], 1)>>), <<0, 1>>, -1, 1) : q \in KeyFamilies}
-Init == /\ L \in (IF SmallInit THEN SmallLoaders ELSE Batch2 \cup Batch21 \cup Single3 \cup Empty) /\ T \in Spare
+(* "gap" registries: the image ids are not 0..n-1 (what filter(img = 1) leaves behind), so the next automatic id
+   must skip an id that is in use *)
+GapLoaders == {Loader("batch", Table(ColsB, <<RowB(3, q[3], 1), RowB(4, q[4], 1)>>), <<1>>, -1, 1) : q \in KeyFamilies}
+SmallLoadersAll == SmallLoaders \cup GapLoaders
+Init == /\ L \in (IF SmallInit THEN SmallLoadersAll ELSE Batch2 \cup Batch21 \cup Single3 \cup Empty) /\ T \in Spare
         /\ depth = 0 /\ hist = <<>> /\ start = [L |-> L, T |-> T]
 Apply(op) == \E r \in NextRes(op, L, T) :
                 /\ depth < MaxDepth /\ L' = r /\ NRows(r.tab) <= MaxRows
